@@ -15,6 +15,7 @@ import numpy as np
 from ..report import Out
 from .. import meshspace as ms
 from .. import catalogue as cat
+from .. import meshops as mo
 from ..topo import Topo, REF
 
 ID = 'C03'
@@ -76,6 +77,14 @@ def items(tier, seed):
                 continue
             for n in names:
                 its.append((n, ent.name))
+    # periodic meshes made by the library (no facet bases there: one-sided traces are evaluated by hand through gbasis)
+    for pname, pst in ms.periodic_roots(seed).items():
+        if pname in ('P:tri-y', 'P:hex-z') and tier == 'quick':
+            continue
+        for ent in entries_for(pst.kind, tier):
+            if ent.name in cat.AXIS_ALIGNED_ONLY or ent.family in ('Morley', 'P15', 'C1', 'Hermite'):
+                continue        # globally defined elements need vertex-indexed geometry (loud failure of the library)
+            its.append((pname, ent.name))
     return its
 
 
@@ -208,6 +217,9 @@ def work(item, tier, seed):
     warnings.simplefilter('ignore')
     ent = cat.by_name(ename)
     heavy = any(s in ename for s in ('Argyris', 'HexC1', 'BFS', '15Param', 'Morley', 'Hermite', '2G', '1G'))
+    if name.startswith('P:'):
+        check_state(ms.periodic_roots(seed)[name], ent, out)
+        return out
     if name == 'axis':
         st0 = axis_patch(ent.kind)
     else:
@@ -215,6 +227,78 @@ def work(item, tier, seed):
     for st in states_for(st0, tier, heavy):
         check_state(st, ent, out)
     return out
+
+
+class _HandBasis:
+    """One-sided traces of every local function on every interior facet, evaluated by hand: the lattice point with weights
+    w on the (global) vertices of the facet is the reference point  sum_i w_i * refvertex[local index of vertex i]  of each
+    neighbour, and the element's gbasis is asked there cell by cell.  Mimics the few attributes check_state needs."""
+
+    def __init__(self, m, kind, ent, X, side):
+        from skfem.assembly import Dofs
+        elem = ent.make()
+        dofs = Dofs(m, elem)
+        self.element_dofs_all = dofs.element_dofs
+        self.N = int(dofs.N)
+        self.Nbfun = dofs.element_dofs.shape[0]
+        mapping = m._mapping()
+        refp = np.asarray(elem.refdom.p, dtype=float)
+        dim = refp.shape[0]
+        fvl = mo.facet_vertex_lists(kind, m)
+        self.find = np.array([j for j in range(m.facets.shape[1]) if m.f2t[1, j] >= 0], dtype=np.int64)
+        nfac = len(self.find)
+        nq = X.shape[1] if X.size else 1
+        nfv = len(fvl[int(self.find[0])])
+        if nfv == 1:
+            Wt = np.ones((1, 1))
+        elif nfv == 2:
+            Wt = np.stack([1 - X[0], X[0]])
+        elif nfv == 3:
+            Wt = np.stack([1 - X[0] - X[1], X[0], X[1]])
+        else:
+            Wt = np.stack([(1 - X[0]) * (1 - X[1]), X[0] * (1 - X[1]), X[0] * X[1], (1 - X[0]) * X[1]])
+        self.tind = np.array([int(m.f2t[side, j]) for j in self.find])
+        self.normals = np.zeros((dim, nfac, nq))
+        self.x = np.zeros((dim, nfac, nq))
+        vals, grads = {}, {}
+        for f, j in enumerate(self.find):
+            c = int(self.tind[f])
+            verts = fvl[int(j)]
+            tc = [int(v) for v in m.t[:, c]]
+            li = [tc.index(v) for v in verts]
+            Y = refp[:, li] @ Wt                                  # (dim, nq)
+            tind = np.array([c], dtype=np.int32)
+            self.x[:, f, :] = np.asarray(mapping.F(Y, tind=tind))[:, 0, :]
+            DF = np.asarray(mapping.DF(Y, tind=tind))[:, :, 0, :]  # (dim, dim, nq)
+            if dim == 1:
+                self.normals[0, f, :] = 1.0
+            else:
+                t1 = np.einsum('ijq,j->iq', DF, refp[:, li[1]] - refp[:, li[0]])
+                if dim == 2:
+                    nrm = np.stack([t1[1], -t1[0]])
+                else:
+                    t2 = np.einsum('ijq,j->iq', DF, refp[:, li[-1]] - refp[:, li[0]])
+                    nrm = np.cross(t1, t2, axis=0)
+                self.normals[:, f, :] = nrm / np.linalg.norm(nrm, axis=0)
+            for i in range(self.Nbfun):
+                fld = elem.gbasis(mapping, Y, i, tind=tind)[0]
+                v = np.asarray(fld)
+                vals[(i, f)] = v[..., 0, :] if v.shape[-2] == 1 else v[..., c, :]
+                if fld.grad is not None:
+                    g = np.asarray(fld.grad)
+                    grads[(i, f)] = g[..., 0, :] if g.shape[-2] == 1 else g[..., c, :]
+        v0 = vals[(0, 0)]
+        self.V = np.zeros((self.N,) + v0.shape[:-1] + (nfac, nq))
+        self.G = None
+        if grads:
+            g0 = grads[(0, 0)]
+            self.G = np.zeros((self.N,) + g0.shape[:-1] + (nfac, nq))
+        for (i, f), v in vals.items():
+            k = int(self.element_dofs_all[i, self.tind[f]])
+            self.V[k, ..., f, :] += v
+            if self.G is not None:
+                self.G[k, ..., f, :] += grads[(i, f)]
+        self.nelems = nfac
 
 
 def check_state(st, ent, out):
@@ -238,19 +322,38 @@ def check_state(st, ent, out):
 
     def bad(what, msg):
         out.violation(sig0 + what + rot, f"{msg} [element {ent.name}, history {list(st.hist)}]", case=case0)
-    try:
-        b0 = InteriorFacetBasis(m, ent.make(), side=0, quadrature=(X, W))
-        b1 = InteriorFacetBasis(m, ent.make(), side=1, quadrature=(X, W))
-    except Exception as e:
-        out.count('facet_basis_unsupported:' + ent.name)
+    if ent.kind != kind:
+        out.count('element_of_another_cell_type_skipped')      # e.g. a quadrilateral element after to_meshtri()
         return
+    periodic = st.cls.endswith('DG')
+    hand = periodic
+    if not hand:
+        try:
+            b0 = InteriorFacetBasis(m, ent.make(), side=0, quadrature=(X, W))
+            b1 = InteriorFacetBasis(m, ent.make(), side=1, quadrature=(X, W))
+        except Exception as e:
+            # e.g. ElementTriN3 cannot be evaluated with per-cell point arrays: its traces are evaluated by hand instead
+            out.count('facet_basis_unsupported_traces_by_hand:' + ent.name)
+            hand = True
+    if hand:
+        try:
+            b0 = _HandBasis(m, kind, ent, X, 0)
+            b1 = _HandBasis(m, kind, ent, X, 1)
+        except Exception as e:
+            out.count(f'traces_by_hand_unsupported:{ent.name}:{type(e).__name__}')
+            return
     N = b0.N
     nfac = b0.nelems
-    nq = X.shape[1]
-    # same physical points on both sides
-    x0 = np.asarray(b0.global_coordinates())
-    x1 = np.asarray(b1.global_coordinates())
-    if np.abs(x0 - x1).max() > 1e-12:
+    nq = X.shape[1] if X.size else 1
+    # same physical points on both sides (across a periodic seam: up to the translation of the identification)
+    x0 = b0.x if hand else np.asarray(b0.global_coordinates())
+    x1 = b1.x if hand else np.asarray(b1.global_coordinates())
+    if periodic:
+        shift = x1[:, :, :1] - x0[:, :, :1]
+        if np.abs((x1 - x0) - shift).max() > 1e-12:
+            bad('points-differ', "the two one-sided point sets are not translates of each other")
+            return
+    elif np.abs(x0 - x1).max() > 1e-12:
         bad('points-differ', "the two one-sided bases do not share their quadrature points")
         return
     n = np.asarray(b0.normals)                       # (dim, nfac, nq)
@@ -264,17 +367,16 @@ def check_state(st, ent, out):
 
     def traces(b):
         """value (and gradient) traces of every unit vector: arrays (N, comps.., nfac, nq)."""
+        if hand:
+            return b.V, b.G
         v0 = np.asarray(b.basis[0][0])
         V = np.zeros((N,) + v0.shape)
         g0 = b.basis[0][0].grad
         G = None if g0 is None else np.zeros((N,) + np.asarray(g0).shape)
         ed = b.element_dofs
-        fi = np.arange(nfac)
         for j in range(b.Nbfun):
             fld = b.basis[j][0]
             val = np.asarray(fld)
-            idx = (ed[j],) + (slice(None),) * (val.ndim - 2) + (fi,)
-            np.add.at(V, idx, np.moveaxis(val, -2, 0) if val.ndim > 2 else val) if False else None
             for f in range(nfac):
                 V[ed[j, f], ..., f, :] += val[..., f, :]
                 if G is not None:
@@ -284,6 +386,8 @@ def check_state(st, ent, out):
     V1, G1 = traces(b1)
     # tie to the API observation point: interpolate of two fixed vectors equals the superposition
     for vec in (np.arange(1., N + 1), (-1.) ** np.arange(N) * (1 + np.arange(N) % 3)):
+        if hand:
+            break
         u0 = np.asarray(b0.interpolate(vec))
         if np.abs(u0 - np.tensordot(vec, V0, axes=(0, 0))).max() > 1e-9 * (1 + np.abs(u0).max()):
             bad('interpolate-not-superposition', "InteriorFacetBasis.interpolate(x) differs from sum x_k * trace(e_k)")
